@@ -220,6 +220,8 @@ SpanResult(cs, sp) ==
       regroups == FoldLeft(LAMBDA lst, e : lst \o ContactsOf(Merged(cs, e[2])), <<>>, e2)
   IN [cat |-> e1[1] \o FoldLeft(LAMBDA lst, e : lst \o e[1], <<>>, e2),
       rects |-> [i \in 1..Len(rects) |-> RectOf(rects[i])],
+      \* in the code's order: catalogue match of the span, endorsed rects, catalogue matches of the rejected spans
+      endorsed |-> e1[1] \o [i \in 1..Len(rects) |-> RectOf(rects[i])] \o FoldLeft(LAMBDA lst, e : lst \o e[1], <<>>, e2),
       singles |-> FoldLeft(LAMBDA lst, GG : IF Len(GG) = 1 THEN Append(lst, GG[1]) ELSE lst, <<>>, regroups),
       groups |-> SelectSeq(regroups, LAMBDA GG : Len(GG) > 1)]
 
@@ -238,7 +240,7 @@ Strip(fr) ==
 \* every element carries, as its last component, whether it is rendered inside a <g> (a contact group of
 \* more than one fragment that was not endorsed) or as a free element
 Flatten(results) ==
-  LET free == FoldLeft(LAMBDA lst, rr : lst \o rr.cat \o rr.rects \o rr.singles, <<>>, results)
+  LET free == FoldLeft(LAMBDA lst, rr : lst \o rr.endorsed, <<>>, results) \o FoldLeft(LAMBDA lst, rr : lst \o rr.singles, <<>>, results)
       grouped == FoldLeft(LAMBDA lst, rr : lst \o FoldLeft(LAMBDA a2, GG : a2 \o GG, <<>>, rr.groups), <<>>, results)
   IN [i \in 1..Len(free) |-> Append(Strip(free[i]), 0)] \o [i \in 1..Len(grouped) |-> Append(Strip(grouped[i]), 1)]
 Output(rws) == LET cs == CellSeq(rws) sps == SpansOf(cs) IN
